@@ -557,9 +557,75 @@ def known_struct(case, r):
     return None
 
 
+def _spec_items(s):
+    """the Sigma specification's reading of a value string (same as Spec/Items.v iparse)"""
+    out, i = [], 0
+    while i < len(s):
+        c = s[i]
+        if c == "\\":
+            if i + 1 < len(s) and s[i + 1] in "*?\\":
+                out.append(["L", s[i + 1]]); i += 2; continue
+            out.append(["L", "\\"]); i += 1; continue
+        out.append(["M"] if c == "*" else ["S"] if c == "?" else ["L", c]); i += 1
+    return out
+
+
+SIMPLE_MODS = {"contains", "startswith", "endswith", "cased", "all", "neq"}
+
+
+def expected_item(key, val):
+    """Reference reading of a detection item whose modifiers are only contains/startswith/endswith/cased/
+    all/neq and whose values are strings: independent of the implementation's modifier classes."""
+    parts = key.split("|")
+    mods = parts[1:]
+    if not set(mods) <= SIMPLE_MODS:
+        return None
+    vals = val if isinstance(val, list) else [val]
+    if not vals or not all(isinstance(v, str) for v in vals):
+        return None
+    out = []
+    for v in vals:
+        items, cased = _spec_items(v), False
+        for m in mods:
+            if m == "contains":
+                if not items or items[0] != ["M"]: items = [["M"]] + items
+                if items[-1] != ["M"]: items = items + [["M"]]
+            elif m == "startswith":
+                if not items or items[-1] != ["M"]: items = items + [["M"]]
+            elif m == "endswith":
+                if not items or items[0] != ["M"]: items = [["M"]] + items
+            elif m == "cased":
+                cased = True
+        out.append(["cstr" if cased else "str", items])
+    return {"field": parts[0] or None, "values": out, "vlink": "and" if "all" in mods else "or", "neg": "neq" in mods}
+
+
+def check_simple_items(case, r):
+    """post-modifier detection items of the implementation vs the reference reading above"""
+    for name, d in case["rule"]["detection"].items():
+        if name == "condition" or not isinstance(d, dict):
+            continue
+        got = r["dets"].get(name)
+        if not got or "det" not in got or len(got["det"]) != len(d):
+            continue
+        for (key, val), g in zip(d.items(), got["det"]):
+            exp = expected_item(key, val)
+            if exp is None or "det" in g:
+                continue
+            if (g["field"], g["values"], g["vlink"], g["neg"]) != (exp["field"], exp["values"], exp["vlink"], exp["neg"]):
+                return f"detection item {name}.{key}: implementation {g} differs from the reference reading {exp}"
+    return None
+
+
 def py_oracle(case, r):
-    """the API result (convert_rule) must be the per-condition queries"""
-    if "exc" in r or r.get("api") is None:
+    """the API result (convert_rule) must be the per-condition queries; simple modifier chains must
+    produce the values/linking/negation/case-sensitivity the rule document spells"""
+    if "exc" in r:
+        return None
+    bad = check_simple_items(case, r)
+    if bad:
+        return bad
+    if r.get("api") is None:
         return None
     if any("unsupported" in c for c in r["conds"]):
         return None
